@@ -1675,6 +1675,304 @@ Definition go_state_nick_parseModes (nk_modes : option go_state_NickMode) (modes
   let '(modeop, i, nk_modes) := p3 in
   Ok nk_modes.
 
+(* type ChanMode struct { Private, Secret, ProtectedTopic, NoExternalMsg, Moderated, InviteOnly, OperOnly, SSLOnly, Registered, AllSSL, Key, Limit }: the fields Private, Secret, ProtectedTopic, NoExternalMsg, Moderated, InviteOnly, OperOnly, SSLOnly, Registered, AllSSL, Key, Limit; a *ChanMode is an option (None = nil) *)
+Definition go_state_ChanMode : Type := (bool * bool * bool * bool * bool * bool * bool * bool * bool * bool * bytes * Z)%type.
+Definition go_state_ChanMode_get_Private (p : option go_state_ChanMode) : res bool :=
+  match p with Some (x1, x2, x3, x4, x5, x6, x7, x8, x9, x10, x11, x12) => Ok x1 | None => Panic end.
+Definition go_state_ChanMode_set_Private (p : option go_state_ChanMode) (v : bool) : res (option go_state_ChanMode) :=
+  match p with Some (x1, x2, x3, x4, x5, x6, x7, x8, x9, x10, x11, x12) => Ok (Some (v, x2, x3, x4, x5, x6, x7, x8, x9, x10, x11, x12)) | None => Panic end.
+Definition go_state_ChanMode_get_Secret (p : option go_state_ChanMode) : res bool :=
+  match p with Some (x1, x2, x3, x4, x5, x6, x7, x8, x9, x10, x11, x12) => Ok x2 | None => Panic end.
+Definition go_state_ChanMode_set_Secret (p : option go_state_ChanMode) (v : bool) : res (option go_state_ChanMode) :=
+  match p with Some (x1, x2, x3, x4, x5, x6, x7, x8, x9, x10, x11, x12) => Ok (Some (x1, v, x3, x4, x5, x6, x7, x8, x9, x10, x11, x12)) | None => Panic end.
+Definition go_state_ChanMode_get_ProtectedTopic (p : option go_state_ChanMode) : res bool :=
+  match p with Some (x1, x2, x3, x4, x5, x6, x7, x8, x9, x10, x11, x12) => Ok x3 | None => Panic end.
+Definition go_state_ChanMode_set_ProtectedTopic (p : option go_state_ChanMode) (v : bool) : res (option go_state_ChanMode) :=
+  match p with Some (x1, x2, x3, x4, x5, x6, x7, x8, x9, x10, x11, x12) => Ok (Some (x1, x2, v, x4, x5, x6, x7, x8, x9, x10, x11, x12)) | None => Panic end.
+Definition go_state_ChanMode_get_NoExternalMsg (p : option go_state_ChanMode) : res bool :=
+  match p with Some (x1, x2, x3, x4, x5, x6, x7, x8, x9, x10, x11, x12) => Ok x4 | None => Panic end.
+Definition go_state_ChanMode_set_NoExternalMsg (p : option go_state_ChanMode) (v : bool) : res (option go_state_ChanMode) :=
+  match p with Some (x1, x2, x3, x4, x5, x6, x7, x8, x9, x10, x11, x12) => Ok (Some (x1, x2, x3, v, x5, x6, x7, x8, x9, x10, x11, x12)) | None => Panic end.
+Definition go_state_ChanMode_get_Moderated (p : option go_state_ChanMode) : res bool :=
+  match p with Some (x1, x2, x3, x4, x5, x6, x7, x8, x9, x10, x11, x12) => Ok x5 | None => Panic end.
+Definition go_state_ChanMode_set_Moderated (p : option go_state_ChanMode) (v : bool) : res (option go_state_ChanMode) :=
+  match p with Some (x1, x2, x3, x4, x5, x6, x7, x8, x9, x10, x11, x12) => Ok (Some (x1, x2, x3, x4, v, x6, x7, x8, x9, x10, x11, x12)) | None => Panic end.
+Definition go_state_ChanMode_get_InviteOnly (p : option go_state_ChanMode) : res bool :=
+  match p with Some (x1, x2, x3, x4, x5, x6, x7, x8, x9, x10, x11, x12) => Ok x6 | None => Panic end.
+Definition go_state_ChanMode_set_InviteOnly (p : option go_state_ChanMode) (v : bool) : res (option go_state_ChanMode) :=
+  match p with Some (x1, x2, x3, x4, x5, x6, x7, x8, x9, x10, x11, x12) => Ok (Some (x1, x2, x3, x4, x5, v, x7, x8, x9, x10, x11, x12)) | None => Panic end.
+Definition go_state_ChanMode_get_OperOnly (p : option go_state_ChanMode) : res bool :=
+  match p with Some (x1, x2, x3, x4, x5, x6, x7, x8, x9, x10, x11, x12) => Ok x7 | None => Panic end.
+Definition go_state_ChanMode_set_OperOnly (p : option go_state_ChanMode) (v : bool) : res (option go_state_ChanMode) :=
+  match p with Some (x1, x2, x3, x4, x5, x6, x7, x8, x9, x10, x11, x12) => Ok (Some (x1, x2, x3, x4, x5, x6, v, x8, x9, x10, x11, x12)) | None => Panic end.
+Definition go_state_ChanMode_get_SSLOnly (p : option go_state_ChanMode) : res bool :=
+  match p with Some (x1, x2, x3, x4, x5, x6, x7, x8, x9, x10, x11, x12) => Ok x8 | None => Panic end.
+Definition go_state_ChanMode_set_SSLOnly (p : option go_state_ChanMode) (v : bool) : res (option go_state_ChanMode) :=
+  match p with Some (x1, x2, x3, x4, x5, x6, x7, x8, x9, x10, x11, x12) => Ok (Some (x1, x2, x3, x4, x5, x6, x7, v, x9, x10, x11, x12)) | None => Panic end.
+Definition go_state_ChanMode_get_Registered (p : option go_state_ChanMode) : res bool :=
+  match p with Some (x1, x2, x3, x4, x5, x6, x7, x8, x9, x10, x11, x12) => Ok x9 | None => Panic end.
+Definition go_state_ChanMode_set_Registered (p : option go_state_ChanMode) (v : bool) : res (option go_state_ChanMode) :=
+  match p with Some (x1, x2, x3, x4, x5, x6, x7, x8, x9, x10, x11, x12) => Ok (Some (x1, x2, x3, x4, x5, x6, x7, x8, v, x10, x11, x12)) | None => Panic end.
+Definition go_state_ChanMode_get_AllSSL (p : option go_state_ChanMode) : res bool :=
+  match p with Some (x1, x2, x3, x4, x5, x6, x7, x8, x9, x10, x11, x12) => Ok x10 | None => Panic end.
+Definition go_state_ChanMode_set_AllSSL (p : option go_state_ChanMode) (v : bool) : res (option go_state_ChanMode) :=
+  match p with Some (x1, x2, x3, x4, x5, x6, x7, x8, x9, x10, x11, x12) => Ok (Some (x1, x2, x3, x4, x5, x6, x7, x8, x9, v, x11, x12)) | None => Panic end.
+Definition go_state_ChanMode_get_Key (p : option go_state_ChanMode) : res bytes :=
+  match p with Some (x1, x2, x3, x4, x5, x6, x7, x8, x9, x10, x11, x12) => Ok x11 | None => Panic end.
+Definition go_state_ChanMode_set_Key (p : option go_state_ChanMode) (v : bytes) : res (option go_state_ChanMode) :=
+  match p with Some (x1, x2, x3, x4, x5, x6, x7, x8, x9, x10, x11, x12) => Ok (Some (x1, x2, x3, x4, x5, x6, x7, x8, x9, x10, v, x12)) | None => Panic end.
+Definition go_state_ChanMode_get_Limit (p : option go_state_ChanMode) : res Z :=
+  match p with Some (x1, x2, x3, x4, x5, x6, x7, x8, x9, x10, x11, x12) => Ok x12 | None => Panic end.
+Definition go_state_ChanMode_set_Limit (p : option go_state_ChanMode) (v : Z) : res (option go_state_ChanMode) :=
+  match p with Some (x1, x2, x3, x4, x5, x6, x7, x8, x9, x10, x11, x12) => Ok (Some (x1, x2, x3, x4, x5, x6, x7, x8, x9, x10, x11, v)) | None => Panic end.
+Definition go_state_ChanMode_eqb (p q : option go_state_ChanMode) : bool :=
+  match p, q with
+  | Some (x1, x2, x3, x4, x5, x6, x7, x8, x9, x10, x11, x12), Some (y1, y2, y3, y4, y5, y6, y7, y8, y9, y10, y11, y12) => Bool.eqb x1 y1 && Bool.eqb x2 y2 && Bool.eqb x3 y3 && Bool.eqb x4 y4 && Bool.eqb x5 y5 && Bool.eqb x6 y6 && Bool.eqb x7 y7 && Bool.eqb x8 y8 && Bool.eqb x9 y9 && Bool.eqb x10 y10 && beq x11 y11 && (x12 =? y12)
+  | None, None => true
+  | _, _ => false
+  end.
+
+(* *nick (package state, not modelled): an abstract reference; nil = None *)
+Context {go_state_nick_ref : Type}.
+
+(* a Go map to pointers, as an abstract store: m[k] (nil when k is missing) *)
+Context {go_map_string_nick : Type}.
+Variable go_map_string_nick_get : go_map_string_nick -> bytes -> option go_state_nick_ref.
+
+(* a Go map to pointers, as an abstract store: m[k] (nil when k is missing), and the write through that pointer *)
+Context {go_map_nick_ChanPrivs : Type}.
+Variable go_map_nick_ChanPrivs_get : go_map_nick_ChanPrivs -> option go_state_nick_ref -> option go_state_ChanPrivs.
+Variable go_map_nick_ChanPrivs_set : go_map_nick_ChanPrivs -> option go_state_nick_ref -> go_state_ChanPrivs -> go_map_nick_ChanPrivs.
+
+(* strconv.Atoi: (value, err) — a variable, as every stdlib function that is not transliterated *)
+Variable go_strconv_Atoi : bytes -> Z * bool.
+
+(* channel.parseModes — state/channel.go *)
+Definition go_state_channel_parseModes (ch_lookup : go_map_string_nick) (ch_modes : option go_state_ChanMode) (ch_name : bytes) (ch_nicks : go_map_nick_ChanPrivs) (modes : bytes) (modeargs : list bytes) : res (option go_state_ChanMode * go_map_nick_ChanPrivs) :=
+  let modeop : bool := false in
+  let modestr : bytes := [] in
+  let i : Z := 0 in
+  let fix loop1 (fuel : nat) (modeargs : list bytes) (modeop : bool) (modestr : bytes) (i : Z) (ch_modes : option go_state_ChanMode) (ch_nicks : go_map_nick_ChanPrivs) {struct fuel} : res (list bytes * bool * bytes * Z * option go_state_ChanMode * go_map_nick_ChanPrivs) :=
+      if i <? len modes then
+        (match fuel with
+        | O => Panic
+        | S fuel' =>
+            m <- byte_at modes i ;;
+            p1 <- (
+                if (m =? 43%N)%N then
+                  (let modeop : bool := true in
+                  let modestr : bytes := go_string_of_byte m in
+                  Ok (modeargs, modeop, modestr, ch_modes, ch_nicks))
+                else
+                  (p2 <- (
+                      if (m =? 45%N)%N then
+                        (let modeop : bool := false in
+                        let modestr : bytes := go_string_of_byte m in
+                        Ok (modeargs, modeop, modestr, ch_modes, ch_nicks))
+                      else
+                        (p3 <- (
+                            if (m =? 105%N)%N then
+                              (ch_modes <- go_state_ChanMode_set_InviteOnly ch_modes modeop ;;
+                              Ok (modeargs, ch_modes, ch_nicks))
+                            else
+                              (p4 <- (
+                                  if (m =? 109%N)%N then
+                                    (ch_modes <- go_state_ChanMode_set_Moderated ch_modes modeop ;;
+                                    Ok (modeargs, ch_modes, ch_nicks))
+                                  else
+                                    (p5 <- (
+                                        if (m =? 110%N)%N then
+                                          (ch_modes <- go_state_ChanMode_set_NoExternalMsg ch_modes modeop ;;
+                                          Ok (modeargs, ch_modes, ch_nicks))
+                                        else
+                                          (p6 <- (
+                                              if (m =? 112%N)%N then
+                                                (ch_modes <- go_state_ChanMode_set_Private ch_modes modeop ;;
+                                                Ok (modeargs, ch_modes, ch_nicks))
+                                              else
+                                                (p7 <- (
+                                                    if (m =? 114%N)%N then
+                                                      (ch_modes <- go_state_ChanMode_set_Registered ch_modes modeop ;;
+                                                      Ok (modeargs, ch_modes, ch_nicks))
+                                                    else
+                                                      (p8 <- (
+                                                          if (m =? 115%N)%N then
+                                                            (ch_modes <- go_state_ChanMode_set_Secret ch_modes modeop ;;
+                                                            Ok (modeargs, ch_modes, ch_nicks))
+                                                          else
+                                                            (p9 <- (
+                                                                if (m =? 116%N)%N then
+                                                                  (ch_modes <- go_state_ChanMode_set_ProtectedTopic ch_modes modeop ;;
+                                                                  Ok (modeargs, ch_modes, ch_nicks))
+                                                                else
+                                                                  (p10 <- (
+                                                                      if (m =? 122%N)%N then
+                                                                        (ch_modes <- go_state_ChanMode_set_SSLOnly ch_modes modeop ;;
+                                                                        Ok (modeargs, ch_modes, ch_nicks))
+                                                                      else
+                                                                        (p11 <- (
+                                                                            if (m =? 90%N)%N then
+                                                                              (ch_modes <- go_state_ChanMode_set_AllSSL ch_modes modeop ;;
+                                                                              Ok (modeargs, ch_modes, ch_nicks))
+                                                                            else
+                                                                              (p12 <- (
+                                                                                  if (m =? 79%N)%N then
+                                                                                    (ch_modes <- go_state_ChanMode_set_OperOnly ch_modes modeop ;;
+                                                                                    Ok (modeargs, ch_modes, ch_nicks))
+                                                                                  else
+                                                                                    (p13 <- (
+                                                                                        if (m =? 107%N)%N then
+                                                                                          (p14 <- (
+                                                                                              if modeop && negb (llen modeargs =? 0) then
+                                                                                                (t2 <- elem_at modeargs 0 ;;
+                                                                                                t3 <- Ok t2 ;;
+                                                                                                t4 <- elems_from modeargs 1 ;;
+                                                                                                t5 <- Ok t4 ;;
+                                                                                                ch_modes <- go_state_ChanMode_set_Key ch_modes t3 ;;
+                                                                                                let modeargs : list bytes := t5 in
+                                                                                                Ok (modeargs, ch_modes))
+                                                                                              else
+                                                                                                (ch_modes <- (
+                                                                                                    if negb modeop then
+                                                                                                      go_state_ChanMode_set_Key ch_modes []
+                                                                                                    else
+                                                                                                      Ok ch_modes) ;;
+                                                                                                Ok (modeargs, ch_modes))) ;;
+                                                                                          let '(modeargs, ch_modes) := p14 in
+                                                                                          Ok (modeargs, ch_modes, ch_nicks))
+                                                                                        else
+                                                                                          (p15 <- (
+                                                                                              if (m =? 108%N)%N then
+                                                                                                (p16 <- (
+                                                                                                    if modeop && negb (llen modeargs =? 0) then
+                                                                                                      (t6 <- elem_at modeargs 0 ;;
+                                                                                                      p17 <- Ok (go_strconv_Atoi t6) ;;
+                                                                                                      let '(t7, t8) := p17 in
+                                                                                                      ch_modes <- go_state_ChanMode_set_Limit ch_modes t7 ;;
+                                                                                                      modeargs <- elems_from modeargs 1 ;;
+                                                                                                      Ok (modeargs, ch_modes))
+                                                                                                    else
+                                                                                                      (ch_modes <- (
+                                                                                                          if negb modeop then
+                                                                                                            go_state_ChanMode_set_Limit ch_modes 0
+                                                                                                          else
+                                                                                                            Ok ch_modes) ;;
+                                                                                                      Ok (modeargs, ch_modes))) ;;
+                                                                                                let '(modeargs, ch_modes) := p16 in
+                                                                                                Ok (modeargs, ch_modes, ch_nicks))
+                                                                                              else
+                                                                                                (p18 <- (
+                                                                                                    if ((m =? 98%N)%N || (m =? 101%N)%N) || (m =? 73%N)%N then
+                                                                                                      (modeargs <- (
+                                                                                                          if negb (llen modeargs =? 0) then
+                                                                                                            elems_from modeargs 1
+                                                                                                          else
+                                                                                                            Ok modeargs) ;;
+                                                                                                      Ok (modeargs, ch_nicks))
+                                                                                                    else
+                                                                                                      (p19 <- (
+                                                                                                          if ((((m =? 113%N)%N || (m =? 97%N)%N) || (m =? 111%N)%N) || (m =? 104%N)%N) || (m =? 118%N)%N then
+                                                                                                            (p20 <- (
+                                                                                                                if negb (llen modeargs =? 0) then
+                                                                                                                  (t11 <- elem_at modeargs 0 ;;
+                                                                                                                  let t12 : option go_state_nick_ref := go_map_string_nick_get ch_lookup t11 in
+                                                                                                                  let '(nk, ok) := (t12, go_is_some t12) in
+                                                                                                                  p21 <- (
+                                                                                                                      if ok then
+                                                                                                                        (let cp : option go_state_ChanPrivs := go_map_nick_ChanPrivs_get ch_nicks nk in
+                                                                                                                        p22 <- (
+                                                                                                                            if (m =? 113%N)%N then
+                                                                                                                              (cp <- go_state_ChanPrivs_set_Owner cp modeop ;;
+                                                                                                                              ch_nicks <- (match cp with Some v_ => Ok (go_map_nick_ChanPrivs_set ch_nicks nk v_) | None => Panic end) ;;
+                                                                                                                              Ok (cp, ch_nicks))
+                                                                                                                            else
+                                                                                                                              (p23 <- (
+                                                                                                                                  if (m =? 97%N)%N then
+                                                                                                                                    (cp <- go_state_ChanPrivs_set_Admin cp modeop ;;
+                                                                                                                                    ch_nicks <- (match cp with Some v_ => Ok (go_map_nick_ChanPrivs_set ch_nicks nk v_) | None => Panic end) ;;
+                                                                                                                                    Ok (cp, ch_nicks))
+                                                                                                                                  else
+                                                                                                                                    (p24 <- (
+                                                                                                                                        if (m =? 111%N)%N then
+                                                                                                                                          (cp <- go_state_ChanPrivs_set_Op cp modeop ;;
+                                                                                                                                          ch_nicks <- (match cp with Some v_ => Ok (go_map_nick_ChanPrivs_set ch_nicks nk v_) | None => Panic end) ;;
+                                                                                                                                          Ok (cp, ch_nicks))
+                                                                                                                                        else
+                                                                                                                                          (p25 <- (
+                                                                                                                                              if (m =? 104%N)%N then
+                                                                                                                                                (cp <- go_state_ChanPrivs_set_HalfOp cp modeop ;;
+                                                                                                                                                ch_nicks <- (match cp with Some v_ => Ok (go_map_nick_ChanPrivs_set ch_nicks nk v_) | None => Panic end) ;;
+                                                                                                                                                Ok (cp, ch_nicks))
+                                                                                                                                              else
+                                                                                                                                                (p26 <- (
+                                                                                                                                                    if (m =? 118%N)%N then
+                                                                                                                                                      (cp <- go_state_ChanPrivs_set_Voice cp modeop ;;
+                                                                                                                                                      ch_nicks <- (match cp with Some v_ => Ok (go_map_nick_ChanPrivs_set ch_nicks nk v_) | None => Panic end) ;;
+                                                                                                                                                      Ok (cp, ch_nicks))
+                                                                                                                                                    else
+                                                                                                                                                      Ok (cp, ch_nicks)) ;;
+                                                                                                                                                let '(cp, ch_nicks) := p26 in
+                                                                                                                                                Ok (cp, ch_nicks))) ;;
+                                                                                                                                          let '(cp, ch_nicks) := p25 in
+                                                                                                                                          Ok (cp, ch_nicks))) ;;
+                                                                                                                                    let '(cp, ch_nicks) := p24 in
+                                                                                                                                    Ok (cp, ch_nicks))) ;;
+                                                                                                                              let '(cp, ch_nicks) := p23 in
+                                                                                                                              Ok (cp, ch_nicks))) ;;
+                                                                                                                        let '(cp, ch_nicks) := p22 in
+                                                                                                                        modeargs <- elems_from modeargs 1 ;;
+                                                                                                                        Ok (modeargs, ch_nicks))
+                                                                                                                      else
+                                                                                                                        (t14 <- elem_at modeargs 0 ;;
+                                                                                                                        Ok (modeargs, ch_nicks))) ;;
+                                                                                                                  let '(modeargs, ch_nicks) := p21 in
+                                                                                                                  Ok (modeargs, ch_nicks))
+                                                                                                                else
+                                                                                                                  Ok (modeargs, ch_nicks)) ;;
+                                                                                                            let '(modeargs, ch_nicks) := p20 in
+                                                                                                            Ok (modeargs, ch_nicks))
+                                                                                                          else
+                                                                                                            Ok (modeargs, ch_nicks)) ;;
+                                                                                                      let '(modeargs, ch_nicks) := p19 in
+                                                                                                      Ok (modeargs, ch_nicks))) ;;
+                                                                                                let '(modeargs, ch_nicks) := p18 in
+                                                                                                Ok (modeargs, ch_modes, ch_nicks))) ;;
+                                                                                          let '(modeargs, ch_modes, ch_nicks) := p15 in
+                                                                                          Ok (modeargs, ch_modes, ch_nicks))) ;;
+                                                                                    let '(modeargs, ch_modes, ch_nicks) := p13 in
+                                                                                    Ok (modeargs, ch_modes, ch_nicks))) ;;
+                                                                              let '(modeargs, ch_modes, ch_nicks) := p12 in
+                                                                              Ok (modeargs, ch_modes, ch_nicks))) ;;
+                                                                        let '(modeargs, ch_modes, ch_nicks) := p11 in
+                                                                        Ok (modeargs, ch_modes, ch_nicks))) ;;
+                                                                  let '(modeargs, ch_modes, ch_nicks) := p10 in
+                                                                  Ok (modeargs, ch_modes, ch_nicks))) ;;
+                                                            let '(modeargs, ch_modes, ch_nicks) := p9 in
+                                                            Ok (modeargs, ch_modes, ch_nicks))) ;;
+                                                      let '(modeargs, ch_modes, ch_nicks) := p8 in
+                                                      Ok (modeargs, ch_modes, ch_nicks))) ;;
+                                                let '(modeargs, ch_modes, ch_nicks) := p7 in
+                                                Ok (modeargs, ch_modes, ch_nicks))) ;;
+                                          let '(modeargs, ch_modes, ch_nicks) := p6 in
+                                          Ok (modeargs, ch_modes, ch_nicks))) ;;
+                                    let '(modeargs, ch_modes, ch_nicks) := p5 in
+                                    Ok (modeargs, ch_modes, ch_nicks))) ;;
+                              let '(modeargs, ch_modes, ch_nicks) := p4 in
+                              Ok (modeargs, ch_modes, ch_nicks))) ;;
+                        let '(modeargs, ch_modes, ch_nicks) := p3 in
+                        Ok (modeargs, modeop, modestr, ch_modes, ch_nicks))) ;;
+                  let '(modeargs, modeop, modestr, ch_modes, ch_nicks) := p2 in
+                  Ok (modeargs, modeop, modestr, ch_modes, ch_nicks))) ;;
+            let '(modeargs, modeop, modestr, ch_modes, ch_nicks) := p1 in
+            let i : Z := i + 1 in
+            loop1 fuel' modeargs modeop modestr i ch_modes ch_nicks
+        end)
+      else
+        Ok (modeargs, modeop, modestr, i, ch_modes, ch_nicks) in
+  p27 <- loop1 (S (length modes)) modeargs modeop modestr i ch_modes ch_nicks ;;
+  let '(modeargs, modeop, modestr, i, ch_modes, ch_nicks) := p27 in
+  Ok (ch_modes, ch_nicks).
+
 End WithTracker.
 Arguments go_state_Tracker_Associate {go_state_Nick_rest go_state_Channel_rest ST} _.
 Arguments go_state_Tracker_ChannelModes {go_state_Nick_rest go_state_Channel_rest ST} _.
